@@ -32,6 +32,7 @@ type bmsg struct {
 type bsession struct {
 	clientID string
 	awaitRel map[uint16]bool
+	relBody  map[uint16]string
 	out      []*bmsg
 	subs     map[string]byte
 }
@@ -171,7 +172,15 @@ func (b *broker) react(c *simConn, p *Packet, mode respMode) {
 		case 2:
 			if !sess.awaitRel[p.ID] {
 				sess.awaitRel[p.ID] = true
+				if sess.relBody == nil {
+					sess.relBody = map[uint16]string{}
+				}
+				sess.relBody[p.ID] = p.Topic + "\x00" + string(p.Body)
 				b.forward = append(b.forward, f)
+			} else if sess.relBody[p.ID] != p.Topic+"\x00"+string(p.Body) {
+				// a different message under an identifier the broker still holds:
+				// possible only when the client lost that record
+				b.w.ev(Event{K: "bk-id-clash", C: c.id, N: int(p.ID), S: p.Topic})
 			}
 			send(encAck(tPUBREC, p.ID))
 		}
